@@ -35,13 +35,16 @@ type c08World struct {
 	nfn         int
 	anonPaths   map[string]bool
 	treeChanged bool
+	head        *jen.Statement // the File's first declaration: var _ = Zid(1)
 }
 
-var c08Names = map[string]string{"a/f": "f", "b/f": "f", "c/f": "f", "z/anon": "anon"}
+var c08Names = map[string]string{"a/f": "f", "b/f": "f", "c/f": "f", "z/anon": "anon", "s/lash/": "lash"}
 
 func newC08World() *c08World {
 	w := &c08World{World: imp.New("NewFile", "", imp.DefaultTrueName(c08Names)), observed: map[string]string{}, obsWhere: map[string]string{}, anonPaths: map[string]bool{}}
-	for i, p := range []string{"b/f", "c/f"} {
+	w.head = jen.Var().Id("_").Op("=").Id("Zid").Call(jen.Lit(1))
+	w.F.Add(w.head)
+	for i, p := range []string{"b/f", "c/f", "C", "s/lash/"} {
 		sym := fmt.Sprintf("R%d", 9000+i)
 		w.frags = append(w.frags, jen.Qual(p, sym).Call())
 		w.fragPath = append(w.fragPath, p)
@@ -185,7 +188,7 @@ var c08Ops = func() []c08Op {
 		w.fileRender(fmt.Sprintf("File.Render #%d", w.nRenders+1))
 		return true
 	})
-	for i := 0; i < 2; i++ {
+	for i := 0; i < 4; i++ {
 		i := i
 		add(fmt.Sprintf("Fragment%d.RenderWithFile", i), func(w *c08World) bool {
 			w.Log = append(w.Log, fmt.Sprintf("Qual(%s).RenderWithFile(file)", w.fragPath[i]))
@@ -211,6 +214,26 @@ var c08Ops = func() []c08Op {
 		w.AnonImport("a/f")
 		return true
 	})
+	add("ImportAlias(s/lash/,.)", func(w *c08World) bool { w.Alias("s/lash/", "."); return true })
+	add("Anon(C)-if-unreferenced", func(w *c08World) bool {
+		if _, seen := w.observed["C"]; seen {
+			return false
+		}
+		w.AnonImport("C")
+		return true
+	})
+	// a reference added to the File's FIRST declaration (a statement the caller kept a pointer to),
+	// i.e. in front of everything rendered before
+	for _, p := range []string{"a/f", "b/f"} {
+		p := p
+		add("ExtendFirstDecl("+p+")", func(w *c08World) bool {
+			n := len(w.Refs)
+			w.Refs = append(w.Refs, imp.Ref{Path: p, Sym: fmt.Sprintf("R%d", n), Wrapper: "head", Rendered: true})
+			w.head.Op("+").Qual(p, fmt.Sprintf("R%d", n))
+			w.Log = append(w.Log, "first declaration += "+p)
+			return true
+		})
+	}
 	add("PackagePrefix=pkg", func(w *c08World) bool {
 		if w.F.PackagePrefix != "" {
 			return false
